@@ -204,11 +204,37 @@ func splitTop(s string) []string {
 const nilPtr = "(mkptr 0 0 0)"
 const nilSlice = "(mkslice 0 0 0 0)"
 
+// q mangles a name into an SMT-LIB simple symbol (no quoting: cvc5 1.0.3 mishandles quoted
+// constructor names in testers).
 func q(name string) string {
-	// quote an SMT symbol
-	name = strings.ReplaceAll(name, "|", "!")
-	name = strings.ReplaceAll(name, "\\", "!")
-	return "|" + name + "|"
+	var b strings.Builder
+	for _, c := range name {
+		switch {
+		case (c >= 'a' && c <= 'z') || (c >= 'A' && c <= 'Z') || (c >= '0' && c <= '9'):
+			b.WriteRune(c)
+		case strings.ContainsRune("~!@$%^&*_-+=<>.?/", c):
+			b.WriteRune(c)
+		case c == ' ':
+			b.WriteByte('_')
+		case c == '#' || c == '|' || c == '\\':
+			b.WriteByte('!')
+		case c == '[':
+			b.WriteByte('<')
+		case c == ']':
+			b.WriteByte('>')
+		case c == '(' || c == ')':
+			b.WriteByte('~')
+		case c == ',':
+			b.WriteByte('&')
+		case c == ':' || c == ';':
+			b.WriteByte('$')
+		case c == '{' || c == '}':
+			b.WriteByte('%')
+		default:
+			b.WriteByte('?')
+		}
+	}
+	return b.String()
 }
 
 func sortedKeys[V any](m map[string]V) []string {
